@@ -43,6 +43,8 @@ func main() {
 		"add/stream/mixed x injected out-of-order keys) built with table.NewStoreBuilder and read back through table.NewCache readers; " +
 		"M = 1-12 real table iterators with a chosen overlap pattern through table.NewMergedIterator; " +
 		"S = a real kv.Store (store manager, flusher, snapshot, optional compaction and reopen) with 1-12 overlapping flushes; " +
+		"SL = flushes into file numbers re-issued after a reopen over leftovers of flushes that never committed; a quarter of the T tables (a sixth of the M/VR tables) " +
+		"are built at a path where a longer earlier output (complete / abandoned / torn) already lies; " +
 		"V/VR = version range lookups on file metas alone and on real files in arbitrary levels, through the manifest and back. " +
 		"A case is non-trivial when present lookups, absent lookups and an iteration (T), >=1 merged entry (M), present and absent probes (S, VR) " +
 		"or >=2 file ranges (V) were really checked; distinct = distinct hash of key sets, sizes and case parameters")
@@ -72,6 +74,7 @@ func main() {
 	// store cases are the slowest per case: start them first
 	split("S", nS, c.Pick(12, 200))
 	split("SR", c.Pick(6, 60), c.Pick(6, 20))
+	split("SL", c.Pick(32, 1200), c.Pick(8, 100))
 	split("T", nT, c.Pick(80, 500))
 	split("M", nM, c.Pick(50, 1250))
 	split("VR", nVR, c.Pick(20, 300))
@@ -170,6 +173,9 @@ func main() {
 		"tables_offset_width_w1": 5, "tables_offset_width_w2": 5, "tables_offset_width_w3": 5, "tables_offset_width_w4": 1,
 		"tables_with_value_ge_256KiB": 3, "compactions": 5, "stores_reopened": 5, "manifest_recoveries": 20,
 		"tables_shape_full-container": 1, "tables_shape_container-threshold": 3,
+		"tables_built_over_longer_predecessor_complete": 20, "tables_built_over_longer_predecessor_abandoned": 20,
+		"tables_built_over_longer_predecessor_partial": 20, "tables_built_over_longer_predecessor_slightly-longer": 20,
+		"flushes_over_longer_leftover": 5,
 	}
 	if !c.Quick() {
 		need["tables_with_value_ge_1MiB"] = 20
@@ -329,6 +335,8 @@ func childMain(args []string) {
 			runMergeCase(cc)
 		case "SR":
 			runStoreCase(cc)
+		case "SL":
+			runStoreLeftoverCase(cc)
 		case "S":
 			if idx == 0 {
 				ce := *cc
